@@ -627,7 +627,7 @@ Proof.
         -- exfalso. apply (f_equal zlen) in E. rewrite zlen_zdrop in E by (unfold lsize in *; lia).
            change (zlen (@nil Z)) with 0 in E. unfold lsize in *. lia.
         -- cbn [find_crlf] in E3. rewrite gnc_loop_finished in E3 by exact Hfin. inversion E3; subst s3.
-           destruct (compact_props s1 ltac:(unfold WF; splits; auto)) as (HWFc & _ & _ & Hremc & Hcurc).
+           destruct (compact_props s1 ltac:(unfold WF; splits; auto; lia)) as (HWFc & _ & _ & Hremc & Hcurc).
            unfold Fin. splits; auto; [rewrite Hremc; exact Hrem|].
            exists [10]. unfold compact, set_line. cbn [c_cursor c_line]. rewrite zdrop_nonpos by lia. rewrite E. reflexivity.
         -- cbn in E3. inversion E3; subst s3. unfold Fin, WF, lsize. cbn [c_line c_cursor c_cap c_err c_finish c_ps c_remain].
